@@ -1191,10 +1191,12 @@ class BareServer():
         """
         self.servant.serviceConnects()
         for ca, ix in list(self.servant.ixes.items()):  # closeConnection deletes
-            # check for and handle cutoff connections by client here
-
             if ca not in self.stewards:
                 self.stewards[ca] = Steward(remoter=ix, dictable=self.dictable)
+
+            if ix.cutoff:  # closed by client so remove connection and its steward
+                self.closeConnection(ca)
+                continue
 
             if ix.tymeout > 0.0 and ix.tymer.expired:
                 self.closeConnection(ca)
